@@ -2046,3 +2046,34 @@ def rule_reindexskip(ctx) -> RuleResult:
         res.notes.append("_finalize_results no longer re-indexes: rule not applicable")
         res.min_instances = 0
     return res
+
+
+# ---------------------------------------------------------------------------------------------
+# R-COMBINECAST (C03, C02, C11): the combine path of the reduction tree never casts intermediates to a dtype derived from the data.
+# Intermediates are created by chunk_reduce in the blueprint's intermediate dtypes and change dtype only through NumPy's promotion when the
+# children of a tree node are concatenated.  A cast on that path whose target is computed from the children's own dtypes (the "narrowest",
+# the first child's, ...) crosses kinds -- the all-fill placeholder of a label-free block is int64 / float64, so complex128 partial sums
+# become integers at the nodes that contain such a block and the result depends on the bracketing.  Only blueprint dtype slots
+# (agg.dtype[...], a `dtype` / `dt` parameter handed down from them) are legal cast targets in _conc2, _simple_combine and _grouped_combine.
+def rule_combinecast(ctx) -> RuleResult:
+    res = RuleResult("R-COMBINECAST", "the tree-combine path casts intermediates only to blueprint dtype slots", min_instances=0)
+    n = 0
+    for q in ("core._conc2", "core._simple_combine", "core._grouped_combine", "core._aggregate", "core._expand_dims"):
+        f = ctx.prog.funcs.get(q)
+        if f is None:
+            continue
+        for c in calls_in(f.node):
+            if not (isinstance(c.func, ast.Attribute) and c.func.attr == "astype" and c.args):
+                continue
+            n += 1
+            t = c.args[0]
+            slot = any(isinstance(x, ast.Subscript) and ".dtype[" in norm(x) for x in ast.walk(t)) or (isinstance(t, ast.Name) and t.id in ("dtype", "dt") and t.id in f.params)
+            res.inst(f"{q}: {norm(c)[:60]}: target is a blueprint dtype slot: {slot}", f"{q}|{norm(c)[:40]}")
+            if not slot:
+                res.report(f"{q}|cast-to-data-derived-dtype|{norm(t)[:30]}", f.where(c), q,
+                           f"'{norm(c)[:60]}' casts the intermediates of a tree node to '{norm(t)[:30]}', a dtype that is not a blueprint slot: a dtype picked from the "
+                           "children (by item size, say) crosses kinds when a label-free block contributes its int64 / float64 placeholder -- complex partial sums lose "
+                           "their imaginary part at some nodes only, so the result depends on split_every")
+    if n == 0:
+        res.notes.append("no cast on the tree-combine path today (the self-test keeps a positive example)")
+    return res
